@@ -32,7 +32,7 @@ def history_strategy(tier):
     @st.composite
     def s(draw):
         spec = draw(gen.dataset(max_inputs=3, clim="maybe", flavor="mix", core_max=3, extra_max=1, allow_drop=False,
-                                max_members=2, allow_all_missing=False))
+                                max_members=2, allow_all_missing=False, own_obs=True))
         opts = {}
         if draw(st.sampled_from([False, False, True])):
             vals = [v for d in spec["inputs"] if d.get("obs") for pl in d["obs"] for row in pl for v in row if v is not None] or [0.0]
@@ -250,7 +250,7 @@ def run_stateful(ctx, tier, seedval, n, t_end):
             self.history = []
 
         @initialize(spec=gen.dataset(max_inputs=3, clim="maybe", flavor="mix", core_max=3, extra_max=1, allow_drop=False,
-                                     max_members=2, allow_all_missing=False))
+                                     max_members=2, allow_all_missing=False, own_obs=True))
         def build(self, spec):
             self.spec = spec
             self.history = []
